@@ -54,6 +54,7 @@ type Task struct {
 	lkind string
 
 	weakRank  int
+	held      map[any]string // locks held by this task (lock model), value "r" or "w"
 
 	blockedAt string
 	Panic     any
@@ -121,6 +122,8 @@ type Sim struct {
 	start   time.Time
 	ranker  func(key, value any) (int64, bool)
 	onStep  func()
+	shadows map[uintptr]*shadow
+	races   []Race
 
 	// counters
 	Switches   int
@@ -354,6 +357,7 @@ func (s *Sim) noteBlocking(t *Task, site string) {
 
 func (s *Sim) unlock(t *Task, mu any, kind string) {
 	s.mu.Lock()
+	delete(t.held, mu)
 	ls := s.locks[mu]
 	if ls != nil {
 		if kind == "r" {
@@ -382,6 +386,10 @@ func (s *Sim) lockFree(mu any, kind string) bool {
 }
 
 func (s *Sim) acquire(t *Task) {
+	if t.held == nil {
+		t.held = map[any]string{}
+	}
+	t.held[t.mu] = t.lkind
 	ls := s.locks[t.mu]
 	if ls == nil {
 		ls = &lockState{}
@@ -516,6 +524,119 @@ func sortKeys[K comparable](s *Sim, keys []K, val func(K) any) {
 	})
 	for i := range rs {
 		keys[i] = rs[i].k
+	}
+}
+
+// ---------------------------------------------------------------- lockset data-race check
+//
+// The scheduler serialises tasks, so the Go race detector would see every
+// access ordered by the simulator's own wake-ups. Instead the simulator runs
+// the Eraser lockset discipline over the accesses the instrumenter reports
+// (map reads/writes, writes of fields reached through pointers) and the lock
+// model it maintains anyway: a location touched by two tasks, at least once
+// for writing, must be protected by one common lock (a read lock protects
+// reads only). Deterministic and replayable like everything else in a run.
+
+type shadowState uint8
+
+const (
+	shExclusive shadowState = iota
+	shShared
+	shSharedMod
+)
+
+type shadow struct {
+	state    shadowState
+	owner    *Task
+	lockset  map[any]bool
+	reported bool
+	keep     any
+	lastSite string
+	lastTask int
+	lastW    bool
+	hasOther  bool
+	otherSite string
+	otherTask int
+	otherW    bool
+}
+
+// Race is one lockset violation.
+type Race struct {
+	Kind  string
+	Site  string
+	Task  int
+	Write bool
+	Prev  string
+	PrevT int
+	PrevW bool
+}
+
+func (r Race) String() string {
+	rw := func(w bool) string {
+		if w {
+			return "write"
+		}
+		return "read"
+	}
+	return fmt.Sprintf("%s %s at %s by t%d and %s at %s by t%d share no lock", r.Kind, rw(r.Write), r.Site, r.Task, rw(r.PrevW), r.Prev, r.PrevT)
+}
+
+// Races returns the lockset violations found so far.
+func (s *Sim) Races() []Race { return s.races }
+
+func (s *Sim) access(t *Task, site string, id uintptr, write bool, kind string, keep any) {
+	s.mu.Lock()
+	defer s.mu.Unlock()
+	if s.shadows == nil {
+		s.shadows = map[uintptr]*shadow{}
+	}
+	sh := s.shadows[id]
+	if sh == nil {
+		// keep holds the object so that its address cannot be reused by another object during the run
+		s.shadows[id] = &shadow{state: shExclusive, owner: t, lastSite: site, lastTask: t.ID, lastW: write, keep: keep}
+		return
+	}
+	// remember the latest access of the latest *other* task for the report
+	if sh.lastTask != t.ID {
+		sh.otherSite, sh.otherTask, sh.otherW, sh.hasOther = sh.lastSite, sh.lastTask, sh.lastW, true
+	}
+	prevSite, prevTask, prevW := sh.otherSite, sh.otherTask, sh.otherW
+	if !sh.hasOther {
+		prevSite, prevTask, prevW = sh.lastSite, sh.lastTask, sh.lastW
+	}
+	sh.lastSite, sh.lastTask, sh.lastW = site, t.ID, write
+	if sh.state == shExclusive {
+		if sh.owner == t || sh.owner.state == stFinished {
+			sh.owner = t // a finished task hands its data over (creation before the tasks that share it)
+			return
+		}
+		sh.lockset = map[any]bool{}
+		for mu, k := range t.held {
+			if !write || k == "w" {
+				sh.lockset[mu] = true
+			}
+		}
+		if write {
+			sh.state = shSharedMod
+		} else {
+			sh.state = shShared
+		}
+	} else {
+		for mu := range sh.lockset {
+			k, ok := t.held[mu]
+			if !ok || (write && k != "w") {
+				delete(sh.lockset, mu)
+			}
+		}
+		if write {
+			sh.state = shSharedMod
+		}
+	}
+	if sh.state == shSharedMod && len(sh.lockset) == 0 && !sh.reported {
+		sh.reported = true
+		r := Race{Kind: kind, Site: site, Task: t.ID, Write: write, Prev: prevSite, PrevT: prevTask, PrevW: prevW}
+		s.races = append(s.races, r)
+		s.logLocked(t.ID, "race", r.String())
 	}
 }
 
